@@ -291,7 +291,7 @@ def run(ctx):
         ctx.sample({'family': 'GaussFunction', 'partial': tr['GaussFunction']['partial']})
         for fam in c14_gen.FAMS:
             ctx.nontriv(('translated', fam))
-    n_side = 600 if quick else 20000
+    n_side = 600 if quick else 60000
     if not proof_ok or tr is None:
         n_side *= 5
     for k in range(n_side):
